@@ -707,18 +707,37 @@ def run(ctx) -> None:
         names_b = sorted(SYNTHETIC)
         jobs_b = []
         for flag_v, cfg_v in (((3, 8), (3, 12)), ((3, 12), (3, 8)), ((3, 7), (3, 13)), ((3, 9), (3, 10))):
-            for tag, cfg in (("both", cfg_v), ("flag-only", None)):
+            for tag, cfg in (("both", cfg_v), ("flag-only", None), ("mypy-section", cfg_v), ("mypy-flag", cfg_v), ("mypy-args", cfg_v)):
                 sub = bd / f"{tag}-{vstr(flag_v)}-{vstr(cfg_v)}"
                 sub.mkdir()
                 for n in names_b:
                     (sub / n).write_text(SYNTHETIC[n])
-                (sub / "pyproject.toml").write_text(f'[tool.refurb]\npython_version = "{vstr(cfg)}"\n' if cfg else "")
+                # the TARGET is refurb's own; a version MYPY is configured with ([tool.mypy], `-- --python-version`, mypy_args) is not it
+                text = {"both": f'[tool.refurb]\npython_version = "{vstr(cfg_v)}"\n', "flag-only": "", "mypy-section": f'[tool.mypy]\npython_version = "{vstr(cfg_v)}"\n',
+                        "mypy-flag": "", "mypy-args": f'[tool.refurb]\nmypy_args = ["--python-version", "{vstr(cfg_v)}"]\n'}[tag]
+                (sub / "pyproject.toml").write_text(text)
                 jobs_b.append((flag_v, cfg_v, tag, sub))
         with ThreadPoolExecutor(8) as ex:
-            outs_b = list(ex.map(lambda j: core.refurb_cli([*names_b, "--enable-all", "--quiet", "--python-version", vstr(j[0])], cwd=j[3], timeout=600), jobs_b))
+            outs_b = list(ex.map(lambda j: core.refurb_cli([*names_b, "--enable-all", "--quiet", "--python-version", vstr(j[0])] + (["--", "--python-version", vstr(j[1])] if j[2] == "mypy-flag" else []), cwd=j[3], timeout=600), jobs_b))
         by = {(j[0], j[1], j[2]): o for j, o in zip(jobs_b, outs_b)}
         for flag_v, cfg_v in {(j[0], j[1]) for j in jobs_b}:
-            both, alone_ = by[(flag_v, cfg_v, "both")], by[(flag_v, cfg_v, "flag-only")]
+            alone_ = by[(flag_v, cfg_v, "flag-only")]
+            for tag_m in ("mypy-section", "mypy-flag", "mypy-args"):
+                om = by[(flag_v, cfg_v, tag_m)]
+                res.case(("flag-vs-mypy-version", tag_m, flag_v, cfg_v), nontrivial=True)
+                res.bump("cli_runs")
+                dm, d0_ = core.parse_plain(om[1])[0], core.parse_plain(alone_[1])[0]
+                key_ = lambda x: (x["file"], x["line"], x["col"], x["code"], x["msg"])  # noqa: E731
+                if om[2].strip() or sorted(map(key_, dm)) != sorted(map(key_, d0_)):
+                    only_m = [f"{x['file']}:{x['line']} FURB{x['code']}: {x['msg']}" for x in dm if x not in d0_][:3] + [f"(missing) {x['file']}:{x['line']} FURB{x['code']}: {x['msg']}" for x in d0_ if x not in dm][:3]
+                    res.violate(
+                        f"--python-version {vstr(flag_v)} does not decide the target when mypy is given the version {vstr(cfg_v)} through {tag_m}: {only_m[:2]}",
+                        {"kind": "mypy-version-overrides-target", "via": tag_m},
+                        {"files": {n: SYNTHETIC[n] for n in names_b}, "via": tag_m, "mypy_version": vstr(cfg_v), "argv": [*names_b, "--enable-all", "--quiet", "--python-version", vstr(flag_v)],
+                         "differing": only_m, "stderr": om[2][-300:], "required": "the diagnostics of the same command without any mypy version", "how": how},
+                    )
+                    break
+            both = by[(flag_v, cfg_v, "both")]
             res.case(("flag-over-config", flag_v, cfg_v), nontrivial=True)
             res.bump("cli_runs", 2)
             if both[:2] != alone_[:2]:
